@@ -1,14 +1,150 @@
-(* C07 — static-map / raw reader theorems. Statements only; proofs are in ProofsSM*.v. *)
+(* C07 — static-map / raw reader theorems. Statements only; proofs are in ProofsSM*.v. Each theorem
+   is followed by Print Assumptions. Model: coq/C07/StaticMap.v (+ Model.v), tied to /repo by the
+   correspondence check props/c07sm.py. *)
 From Coq Require Import List NArith ZArith Bool.
 From LTV Require Import Common.Bytes.
-From LTV.C07 Require Import Model StaticMap ProofsSM.
+From LTV.C07 Require Import Model ProofsDec ProofsSafe ProofsFaith StaticMap ProofsSM ProofsSMTotal ProofsSMFaith ProofsSMRT.
 Import ListNotations.
 Local Open Scope N_scope.
 
+(* constants re-extracted from the source: max_key_size 16, stack[8], current_key[16 + 2] *)
 Theorem sm_params_ok_now : ProofsSM.sm_params_ok = true.
 Proof. exact ProofsSM.sm_params_ok_now. Qed.
 Print Assumptions sm_params_ok_now.
 
+(* generated obligation: the four REAL key tables (re-extracted on every run) satisfy the side
+   condition of the theorems below (indices inside the value array, keys of <= 15 non-NUL chars) *)
 Theorem real_tables_ok : forallb table_ok [ext_handshake; ext_pex; ext_metadata; dht] = true.
 Proof. exact ProofsSM.real_tables_ok. Qed.
 Print Assumptions real_tables_ok.
+
+(* ... and the writer's extra condition (every ':' / '[' of a key is part of "::" / "[]") *)
+Theorem real_tables_w_ok : forallb table_w_ok [ext_handshake; ext_pex; ext_metadata; dht] = true.
+Proof. exact ProofsSM.real_tables_w_ok. Qed.
+Print Assumptions real_tables_w_ok.
+
+(* Totality and memory safety of static_map_read_bencode_c on ARBITRARY input (shorter than 2^32
+   bytes) for EVERY table with table_ok: never Fault — no read outside the input, no write outside
+   char current_key[18], no read outside key[16], stack index < 8 (the depth bound is DERIVED from the
+   key length: each "::" level advances next_key by >= 2 and next_key <= 15), no store outside the
+   value array, the internal_error default branch unreachable — never OutOfFuel with the fuel of
+   the top-level definition; an accepting run consumes at least one byte and keeps the array size. *)
+Theorem static_map_total : forall tbl l, table_ok tbl = true -> short l ->
+  sm_read tbl l <> Fault /\ sm_read tbl l <> OutOfFuel /\
+  (forall e r, sm_read tbl l = Ok e r -> (length r < length l)%nat /\ length e = length tbl).
+Proof. exact ProofsSMTotal.static_map_total. Qed.
+Print Assumptions static_map_total.
+
+Example static_map_total_nonvacuous :
+  table_ok dht = true /\ short [100; 49; 58; 116; 50; 58; 97; 97; 101] /\
+  exists e, sm_read dht [100; 49; 58; 116; 50; 58; 97; 97; 101] = Ok e [] /\ nth 12 e None = Some (SRaw RawS [97; 97]).
+Proof. split; [reflexivity|]. split; [unfold short, two32; cbn; reflexivity|]. eexists. split; vm_compute; reflexivity. Qed.
+
+(* the same when reading into a map that already holds values (duplicate reads into one object) *)
+Theorem static_map_total_into : forall tbl e l, table_ok tbl = true -> short l -> length e = length tbl ->
+  sm_read_into tbl e l <> Fault /\ sm_read_into tbl e l <> OutOfFuel /\
+  (forall e' r, sm_read_into tbl e l = Ok e' r -> (length r < length l)%nat /\ length e' = length tbl).
+Proof. exact ProofsSMTotal.sm_read_into_total. Qed.
+Print Assumptions static_map_total_into.
+
+(* the raw reader (object_read_bencode_raw_c) is total as well *)
+Theorem raw_c_total : forall k l, short l ->
+  raw_c k l <> Fault /\ raw_c k l <> OutOfFuel /\ (forall x r, raw_c k l = Ok x r -> (length r < length l)%nat).
+Proof. exact ProofsSMTotal.raw_c_total. Qed.
+Print Assumptions raw_c_total.
+
+(* Raw readers return exactly the bytes the skip reader delimits: the consumed prefix `pre` is what
+   skip_c consumes; the untyped view is `pre` itself, the string view is `pre` minus its
+   "<digits>:" header, the list/map views are `pre` minus its first and last byte. *)
+Theorem raw_readers_exact : forall k l o r, short l -> raw_c k l = Ok o r ->
+  skip_c l = Ok tt r /\
+  exists pre, l = pre ++ r /\
+    match o with
+    | None => True
+    | Some b =>
+        match k with
+        | RawAny => b = pre
+        | RawS => exists ds, all_digits ds /\ pre = ds ++ ch_colon :: b
+        | RawL => exists c0 cl, ch_l <= c0 /\ pre = c0 :: b ++ [cl]
+        | RawM => exists c0 cl, ch_d <= c0 /\ pre = c0 :: b ++ [cl]
+        end
+    end.
+Proof. exact ProofsSMFaith.raw_c_exact. Qed.
+Print Assumptions raw_readers_exact.
+
+Example raw_readers_exact_nonvacuous :
+  raw_c RawS [50; 58; 97; 98; 101] = Ok (Some [97; 98]) [101] /\ raw_c RawL [108; 105; 49; 101; 101] = Ok (Some [105; 49; 101]) [].
+Proof. split; vm_compute; reflexivity. Qed.
+
+(* ... but the map view is handed out for values that are NOT dictionaries (raw_bencode::is_raw_map
+   tests m_data[0] >= 'd', which 'i' and 'l' satisfy): a "*M" key stores raw_map("5") for "i5e" *)
+Theorem raw_map_type_refuted :
+  exists l b r, raw_c RawM l = Ok (Some b) r /\ hd 0 l <> ch_d /\
+                sm_read [(0, [107; 42; 77])] (ch_d :: [49; 58; 107] ++ l ++ [ch_e]) = Ok [Some (SRaw RawM b)] [].
+Proof. exact ProofsSMFaith.raw_map_type_refuted. Qed.
+Print Assumptions raw_map_type_refuted.
+
+(* Unknown keys (longer than the room left in current_key, or not found from the first_key cursor):
+   one loop iteration continues at exactly the position the skip reader delimits, with the same
+   cursor, stack and entries (only the scratch buffer current_key may differ). *)
+Theorem unknown_keys_skipped_exactly : forall tbl f st l rk rest u rest',
+  hd 0 l <> ch_e -> c_string l = Ok rk rest -> key_unknown tbl st rk -> skip_c rest = Ok u rest' ->
+  exists cur', sm_loop tbl (S f) st l = sm_loop tbl f (mkst (s_cursor st) (s_stack st) cur' (s_ents st)) rest'.
+Proof. exact ProofsSMFaith.unknown_keys_skipped_exactly. Qed.
+Print Assumptions unknown_keys_skipped_exactly.
+
+Example unknown_keys_nonvacuous :
+  sm_read ext_metadata [100; 49; 58; 122; 108; 105; 49; 101; 101; 101] = Ok [None; None; None] [].
+Proof. vm_compute. reflexivity. Qed.
+
+(* Faithfulness at segment level, for EVERY table and input shorter than 2^31 bytes: every value the
+   reader stores was read from a segment of the input, and is what that segment denotes — plain
+   entries in the liberal bencode relation `denotes` of ProofsFaith.v (true decimal values, never
+   wrapped), raw entries byte-for-byte. *)
+Theorem static_map_faithful : forall tbl l e r, small l -> sm_read tbl l = Ok e r ->
+  forall i sv, nth_error e i = Some (Some sv) ->
+  exists pre vb suf, l = pre ++ vb ++ suf /\
+    match sv with
+    | SObj v _ => denotes vb v
+    | SRaw RawAny b => b = vb
+    | SRaw RawS b => exists ds, all_digits ds /\ vb = ds ++ ch_colon :: b
+    | SRaw RawL b => exists c0 cl, ch_l <= c0 /\ vb = c0 :: b ++ [cl]
+    | SRaw RawM b => exists c0 cl, ch_d <= c0 /\ vb = c0 :: b ++ [cl]
+    end.
+Proof. exact ProofsSMFaith.static_map_faithful. Qed.
+Print Assumptions static_map_faithful.
+
+(* The stronger reading "the stored value is the value of THE TABLE'S KEY in the dictionary the input
+   denotes" is FALSE of the code: (1) C-string semantics of current_key: the input key "v\0x" fills the
+   entry of "v" (real extension-handshake table) *)
+Theorem static_map_key_exact_refuted :
+  exists l e, table_ok ext_handshake = true /\
+    sm_read ext_handshake l = Ok e [] /\ nth 6 e None = Some (SObj (VStr [97]) false) /\
+    nth_error ext_handshake 6 = Some (6, [118]) /\
+    l = [100; 51; 58; 118; 0; 120; 49; 58; 97; 101].
+Proof. exact ProofsSMFaith.static_map_key_exact_refuted. Qed.
+Print Assumptions static_map_key_exact_refuted.
+
+(* (2) an input key that spells the table's path syntax literally ("m::ut_pex" as ONE key) reaches the
+   nested entry *)
+Theorem static_map_key_alias_refuted :
+  exists l e, sm_read ext_handshake l = Ok e [] /\ nth 2 e None = Some (SObj (VInt 1) false) /\
+    l = [100; 57; 58; 109; 58; 58; 117; 116; 95; 112; 101; 120; 105; 49; 101; 101].
+Proof. exact ProofsSMFaith.static_map_key_alias_refuted. Qed.
+Print Assumptions static_map_key_alias_refuted.
+
+(* Round trip. PARTIAL (see the header of ProofsSMRT.v for what is missing): explicit instances over
+   each real table and a synthetic nested table (computed), and the empty map for EVERY table. *)
+Theorem static_map_roundtrip_partial :
+  rt_holds ext_handshake inst_handshake = true /\ rt_holds ext_handshake inst_handshake2 = true /\
+  rt_holds ext_pex inst_pex = true /\ rt_holds ext_metadata inst_metadata = true /\
+  rt_holds dht inst_dht_query = true /\ rt_holds dht inst_dht_reply = true /\
+  table_ok synth_tbl = true /\ rt_holds synth_tbl inst_synth = true.
+Proof. exact ProofsSMRT.static_map_roundtrip_instances. Qed.
+Print Assumptions static_map_roundtrip_partial.
+
+Theorem static_map_roundtrip_empty : forall tbl r, table_ok tbl = true ->
+  sm_write tbl (empty_entries tbl) = WOk [] [ch_d; ch_e] /\
+  sm_read tbl ([ch_d; ch_e] ++ r) = Ok (empty_entries tbl) r.
+Proof. exact ProofsSMRT.static_map_roundtrip_empty. Qed.
+Print Assumptions static_map_roundtrip_empty.
